@@ -33,3 +33,192 @@ Print Assumptions c04_marker_before_pubrec.
 
 Example c04_nonvacuous : ltac:(let t := type of inbound_example in exact t).
 Proof. exact inbound_example. Qed.
+
+(* ---- the closed loop for reception: client + conforming sending broker + one FIFO connection ---- *)
+(* Additions for coq/props/C04.v — broker side (closed loop: conforming SENDING broker +
+   connection + client's exactly-once reception, theories/InboundWorld.v).
+   Needs, next to the existing imports of props/C04.v:
+     From Coq Require Import ZArith List.
+     From MQ Require Import InboundWorld.
+   (standalone here so that it can be compiled on its own:
+     cd /verif/coq && coqc -Q theories MQ -Q gen MQG -Q props MQP -Q /verif/work/prover-inbound-world SIW \
+          /verif/work/prover-inbound-world/C04_additions.v) *)
+From Coq Require Import ZArith List.
+From MQ Require Import Session InboundProofs InboundWorld.
+Import ListNotations.
+Local Open Scope N_scope.
+
+(* ---- the step shapes of the world's client: facts of Session.v they are read off from ---- *)
+(* Already in props/C04.v and props/C07.v: c04_once_per_cycle (I_deliver / I_dupe guard),
+   c07_own_ack + c07_no_ack_while_held (I_deliver: pendingAck := PUBREC id, nothing written),
+   c04_dupe_gets_pubrec(_big) (I_dupe / I_dupe_fail), c04_marker_before_pubrec =
+   c07_ack_first_on_next_call (I_flush / I_flush_fail / I_save_fail),
+   c04_pubrel_gets_pubcomp (I_pubrel / I_pubrel_fail).  Three more: *)
+
+(* The flush saves a marker for a pending PUBREC and for nothing else - in particular not for a
+   PUBCOMP kept after a failed write (what the seeded change M3-C04b alters); the key is the
+   identifier with bit 16. *)
+Theorem c04_tie_marker_only_for_pubrec : forall id,
+  is_pubrec_packet (packet_pubrec id) = true /\ is_pubrec_packet (packet_pubcomp id) = false /\
+  is_pubrec_packet (packet_puback id) = false /\
+  (id < 65536 -> flush_key (packet_pubrec id) = N.lor id remote_flag).
+Proof.
+  intros id. split; [apply is_pubrec_pubrec|]. split; [apply is_pubrec_pubcomp|].
+  split; [apply is_pubrec_puback|apply flush_key_pubrec].
+Qed.
+Print Assumptions c04_tie_marker_only_for_pubrec.
+
+(* toOffline and connect keep pendingAck (I_break, I_reconnect, and every *_fail step). *)
+Theorem c04_tie_pendingack_survives_offline : forall c w c' w',
+  to_offline c w = Some (c', w') -> log_ext w w' /\ k_pack c' = k_pack c.
+Proof. exact to_offline_sat. Qed.
+Print Assumptions c04_tie_pendingack_survives_offline.
+Theorem c04_tie_pendingack_survives_connect : forall c w p w',
+  connect c w = Some (p, w') -> log_ext w w' /\ k_pack (fst p) = k_pack c.
+Proof. exact connect_sat. Qed.
+Print Assumptions c04_tie_pendingack_survives_connect.
+
+(* A process started by AdoptSession has an empty pendingAck (I_restart). *)
+Theorem c04_tie_new_process_no_pendingack : forall cf z1 z2 w p w',
+  op_adopt cf z1 z2 w = Some (p, w') -> log_ext w w' /\ fresh_pack p.
+Proof. exact op_adopt_sat. Qed.
+Print Assumptions c04_tie_new_process_no_pendingack.
+
+(* ---- the closed loop ---- *)
+
+Theorem c04_world_inv : forall w, ireach w -> IInv w.
+Proof. exact inbound_inv. Qed.
+Print Assumptions c04_world_inv.
+
+(* (a) exactly once per delivery cycle, for every interleaving of connection loss, reconnect and
+   client restart: message x is returned at most once, plus once for every process stop that
+   fell between its return and the marker Save of the next ReadSlices call *)
+Theorem c04_world_once_per_cycle : forall w x, ireach w ->
+  (cnt (i_deliv w) x <= 1 + cnt (i_lost w) x)%nat.
+Proof. exact once_per_cycle. Qed.
+Print Assumptions c04_world_once_per_cycle.
+
+Theorem c04_world_once_unless_window : forall w x, ireach w -> ~ In x (i_lost w) ->
+  (cnt (i_deliv w) x <= 1)%nat.
+Proof. exact once_unless_window. Qed.
+Print Assumptions c04_world_once_unless_window.
+
+Theorem c04_world_no_window_nodup : forall w, ireach w -> i_lost w = [] -> NoDup (i_deliv w).
+Proof. exact no_window_nodup. Qed.
+Print Assumptions c04_world_no_window_nodup.
+
+Theorem c04_world_lost_only_by_restart : forall w l w', istep w l w' -> i_lost w' <> i_lost w ->
+  l = LRestart /\ exists id x, i_owed w = Some (URec id x) /\ ~ In id (i_marks w) /\
+                               i_lost w' = x :: i_lost w.
+Proof. exact lost_only_by_restart. Qed.
+Print Assumptions c04_world_lost_only_by_restart.
+
+Theorem c04_world_lost_was_delivered : forall w x, ireach w -> In x (i_lost w) -> In x (i_deliv w).
+Proof. exact lost_was_delivered. Qed.
+Print Assumptions c04_world_lost_was_delivered.
+
+(* (b) identifier reuse: a marker exists only while the broker holds the identifier *)
+Theorem c04_world_marker_means_in_flight : forall w id, ireach w -> In id (i_marks w) ->
+  exists e, cur id (i_out w) = Some e /\ e_id e = id /\ In (e_x e) (i_deliv w).
+Proof. exact marker_means_in_flight. Qed.
+Print Assumptions c04_world_marker_means_in_flight.
+
+Theorem c04_world_new_cycle_no_marker : forall w id, ireach w ->
+  cur id (i_out w) = None -> ~ In id (i_marks w).
+Proof. exact new_cycle_no_marker. Qed.
+Print Assumptions c04_world_new_cycle_no_marker.
+
+Theorem c04_world_new_step_no_marker : forall w w', ireach w -> istep w LNew w' ->
+  exists id, i_out w' = i_out w ++ [mkE id (i_next w) BRec] /\ ~ In id (i_marks w) /\
+             i_marks w' = i_marks w.
+Proof. exact new_step_no_marker. Qed.
+Print Assumptions c04_world_new_step_no_marker.
+
+Theorem c04_world_fresh_never_dupe : forall w id x q, ireach w -> i_b2c w = DPub id x :: q ->
+  ~ In x (i_deliv w) -> ~ In id (i_marks w).
+Proof. exact fresh_never_dupe. Qed.
+Print Assumptions c04_world_fresh_never_dupe.
+
+Theorem c04_world_retransmission_is_dupe : forall w id x q, ireach w -> i_b2c w = DPub id x :: q ->
+  i_owed w = None -> In x (i_deliv w) -> ~ In x (i_lost w) -> In id (i_marks w).
+Proof. exact retransmission_is_dupe. Qed.
+Print Assumptions c04_world_retransmission_is_dupe.
+
+(* the broker's view of the client's answers *)
+Theorem c04_world_broker_knows_pubrec : forall w w', ireach w -> ~ istep w LBrokerRecUnknown w'.
+Proof. exact broker_knows_pubrec. Qed.
+Print Assumptions c04_world_broker_knows_pubrec.
+
+Theorem c04_world_pubrec_is_current : forall w id x q, ireach w -> i_c2b w = URec id x :: q ->
+  exists e, cur id (i_out w) = Some e /\ e_x e = x.
+Proof. exact pubrec_is_current. Qed.
+Print Assumptions c04_world_pubrec_is_current.
+
+Theorem c04_world_stale_pubcomp_harmless : forall w id x q e, ireach w -> i_c2b w = UComp id x :: q ->
+  cur id (i_out w) = Some e -> e_ph e = BComp -> e_x e = x.
+Proof. exact stale_pubcomp_harmless. Qed.
+Print Assumptions c04_world_stale_pubcomp_harmless.
+
+(* (c) bounded progress: when the faults stop every handshake completes *)
+Theorem c04_world_good_step_measure : forall w l w', IInv w -> istep w l w' ->
+  is_progress l = true -> imu w' < imu w.
+Proof. exact good_step_measure. Qed.
+Print Assumptions c04_world_good_step_measure.
+
+Theorem c04_world_new_step_measure : forall w w', istep w LNew w' -> imu w' = imu w + 5.
+Proof. exact new_step_measure. Qed.
+Print Assumptions c04_world_new_step_measure.
+
+Theorem c04_world_progress_enabled : forall w, imu w <> 0 ->
+  exists l w', is_progress l = true /\ istep w l w'.
+Proof. exact progress_enabled. Qed.
+Print Assumptions c04_world_progress_enabled.
+
+Theorem c04_world_quiescent_complete : forall w, ireach w -> quiescent w -> InboundWorld.complete w.
+Proof. exact quiescent_complete. Qed.
+Print Assumptions c04_world_quiescent_complete.
+
+Theorem c04_world_complete_exactly_once : forall w x, InboundWorld.complete w -> ~ In x (i_lost w) ->
+  cnt (i_deliv w) x = if x <? i_next w then 1%nat else 0%nat.
+Proof. exact complete_exactly_once. Qed.
+Print Assumptions c04_world_complete_exactly_once.
+
+Theorem c04_world_good_run_bound : forall w p a w', ireach w -> frun w p a w' ->
+  imu w' + N.of_nat p <= imu w + 5 * N.of_nat a.
+Proof. exact good_run_bound. Qed.
+Print Assumptions c04_world_good_run_bound.
+
+Theorem c04_world_good_run_complete : forall w p a w', ireach w -> frun w p a w' ->
+  quiescent w' -> InboundWorld.complete w'.
+Proof. exact good_run_complete. Qed.
+Print Assumptions c04_world_good_run_complete.
+
+Theorem c04_world_good_run_exists : forall w, ireach w ->
+  exists p w', frun w p 0 w' /\ InboundWorld.complete w' /\ N.of_nat p <= imu w /\ i_lost w' = i_lost w.
+Proof. exact good_run_exists. Qed.
+Print Assumptions c04_world_good_run_exists.
+
+(* concrete traces (non-vacuity of the world, and its boundary) *)
+Theorem c04_world_exec_sound : forall w a w', iexec w a = Some w' -> exists l, istep w l w'.
+Proof. exact iexec_sound. Qed.
+Print Assumptions c04_world_exec_sound.
+
+Example c04_world_retransmission_once : ltac:(let t := type of retransmission_once in exact t).
+Proof. exact retransmission_once. Qed.
+Print Assumptions c04_world_retransmission_once.
+Example c04_world_identifier_reuse_returned : ltac:(let t := type of identifier_reuse_returned in exact t).
+Proof. exact identifier_reuse_returned. Qed.
+Print Assumptions c04_world_identifier_reuse_returned.
+Example c04_world_window_second_delivery : ltac:(let t := type of window_second_delivery in exact t).
+Proof. exact window_second_delivery. Qed.
+Print Assumptions c04_world_window_second_delivery.
+Example c04_world_restart_after_flush_once : ltac:(let t := type of restart_after_flush_once in exact t).
+Proof. exact restart_after_flush_once. Qed.
+Print Assumptions c04_world_restart_after_flush_once.
+Example c04_world_m3c04b_loses_message : ltac:(let t := type of m3c04b_loses_message in exact t).
+Proof. exact m3c04b_loses_message. Qed.
+Print Assumptions c04_world_m3c04b_loses_message.
+Example c04_world_clean_session_restart_loses_message :
+  ltac:(let t := type of clean_session_restart_loses_message in exact t).
+Proof. exact clean_session_restart_loses_message. Qed.
+Print Assumptions c04_world_clean_session_restart_loses_message.
